@@ -4,6 +4,7 @@ import (
 	"fmt"
 	"os"
 	"strconv"
+	"strings"
 )
 
 // replay re-runs one recorded case five times.
@@ -32,6 +33,16 @@ func (c *checker) replay() {
 			idx, what, detail, err = c.evalBlocks(progs, nil)
 			if idx >= 0 && idx != len(progs)-1 {
 				detail = append(detail, fmt.Sprintf("(differs already at history program %d: %s)", idx, progs[idx]))
+			}
+		case "multi":
+			var blocks [][]string
+			for _, b := range append(append([]string{}, rec.History...), rec.Prog) {
+				blocks = append(blocks, strings.Split(b, ";"))
+			}
+			var idx int
+			idx, what, detail, err = c.evalMulti(blocks)
+			if idx >= 0 && idx != len(blocks)-1 {
+				detail = append(detail, fmt.Sprintf("(differs already at block %d)", idx))
 			}
 		case "atomic":
 			pad := 0
